@@ -193,3 +193,72 @@ Proof.
   split; [apply wf_cmds_by_length; reflexivity|]. split; [unfold guard; vm_compute; discriminate|].
   split; [vm_compute; auto|vm_compute; reflexivity].
 Qed.
+
+(* ---------------------------------------------------------------- the same for EVERY node, shared or not *)
+Lemma sub_all_nodes p : Inv p -> SubInv (trees p) ->
+  forall j m, In m (nth j (trees p) []) ->
+  forall i, (2 <= i < j)%nat -> forall k, 0 <= k -> (k + 1) * pow2 i <= pow2 j ->
+  exists n, In n (nth i (trees p) []) /\ n_key n = slice (n_key m) (k * pow2 i) (pow2 i).
+Proof.
+  intros I S j m Hm i Hi k Hk Hks.
+  destruct (n_shared m) eqn:Sh; [|apply (S j m Hm Sh i Hi k Hk Hks)].
+  pose proof (inv_trees _ I) as T.
+  destruct (t_shared _ _ T j m Hm Sh) as (J & M & HM & ShM & O1 & O2 & EK).
+  destruct (t_nodes _ _ T j m Hm) as (A1 & A2 & A3 & A4).
+  destruct (t_nodes _ _ T J M HM) as (B1 & B2 & B3 & B4).
+  pose proof (pow2_gt0 i) as Pi. pose proof (pow2_gt0 j) as Pj. pose proof (pow2_gt0 J) as PJ.
+  assert (LJ : (j <= J)%nat) by (apply pow2_le_inv; lia).
+  (* the distance between the two nodes is a multiple of 2^i *)
+  set (dist := n_off m - n_off M) in *.
+  assert (Dm : dist mod pow2 i = 0).
+  { unfold dist. apply (mod_pow2_le _ i j) in A3; [|lia]. apply (mod_pow2_le _ i J) in B3; [|lia].
+    rewrite Zminus_mod, A3, B3. reflexivity. }
+  assert (Dq : dist = (dist / pow2 i) * pow2 i).
+  { rewrite (Z.div_mod dist (pow2 i)) at 1 by lia. rewrite Dm. lia. }
+  assert (0 <= dist / pow2 i) by (apply Z.div_pos; unfold dist; lia).
+  destruct (S J M HM ShM i ltac:(lia) (dist / pow2 i + k) ltac:(lia)) as (n & Hn & Kn).
+  { replace ((dist / pow2 i + k + 1) * pow2 i) with (dist + (k + 1) * pow2 i) by lia. unfold dist. lia. }
+  exists n. split; auto. rewrite Kn, EK. fold dist.
+  rewrite slice_slice by lia. f_equal. lia.
+Qed.
+
+(* observable form: after ANY history, for EVERY successful add(d, s) -- whether it received storage of its own, hit an
+   identical constant or was itself served from a part of a wider one -- adding any aligned part of >= 4 bytes of d later
+   allocates nothing and leaves the pool untouched *)
+Theorem parts_of_added_shared_thm cmds k d s off : wf_cmds cmds -> guard cmds -> added cmds k d s off ->
+  forall s' i, valid_size s' -> 4 <= s' < s -> 0 <= i -> (i + 1) * s' <= s ->
+  exists o', cp_add (final cmds) (slice d (i * s') s') s' = (final cmds, Ok o') /\
+             slice (cp_fill (final cmds)) o' s' = slice d (i * s') s'.
+Proof.
+  intros W G A s' i V Hs Hi His.
+  pose proof (final_spec cmds W G) as Sp. pose proof (sp_inv _ _ Sp) as I. fold (final cmds) in I.
+  set (p := final cmds) in *.
+  assert (S : SubInv (trees p)).
+  { apply (sub_run cmds cp_init init_inv); auto. intros j m Hm. rewrite init_trees_empty in Hm. destruct Hm. }
+  destruct (sp_rec _ _ Sp k d s off A) as (Vs & m & Hm & Km & Om). fold (final cmds) in Hm. fold p in Hm.
+  destruct (valid_size_checks s Vs) as (D1 & D2). destruct (valid_size_inv s D1 D2) as (_ & Es). set (j := ctz s) in *.
+  destruct (valid_size_checks s' V) as (C1 & C2). destruct (valid_size_inv s' C1 C2) as (L6 & Es'). set (i' := ctz s') in *.
+  assert (Hi' : (2 <= i' < j)%nat).
+  { split.
+    - destruct (Nat.le_gt_cases 2 i'); auto. pose proof (pow2_mono i' 1 ltac:(lia)) as X. change (pow2 1) with 2 in X. lia.
+    - destruct (Nat.lt_ge_cases i' j); auto. pose proof (pow2_mono j i' ltac:(lia)). lia. }
+  destruct (sub_all_nodes p I S j m Hm i' Hi' i Hi ltac:(rewrite Es, Es'; auto)) as (n & Hn & Kn). rewrite Es' in Kn.
+  destruct (t_nodes _ _ (inv_trees _ I) i' n Hn) as (N1 & N2 & N3 & N4). rewrite Es' in N1.
+  pose proof (cp_fill_node p i' n I Hn) as FN. rewrite Es' in FN.
+  assert (ED : slice d (i * s') s' = n_key n).
+  { rewrite Kn, Km. rewrite slice_slice by nia. f_equal. }
+  exists (n_off n). rewrite ED. split; [|exact FN].
+  apply readd; auto. exists n. split; [exact Hn|]. split; auto.
+  rewrite <- N1. symmetry. apply slice_whole.
+Qed.
+
+(* non-vacuity: an 8-byte part of a 16-byte constant is added (served from the shared node), then ITS second half *)
+Example parts_of_added_example :
+  let w := [0; 1; 2; 3; 4; 5; 6; 7; 8; 9; 10; 11; 12; 13; 14; 15] in
+  let cmds := [(w, 16); ([8; 9; 10; 11; 12; 13; 14; 15], 8)] in
+  wf_cmds cmds /\ guard cmds /\ added cmds 1 [8; 9; 10; 11; 12; 13; 14; 15] 8 8 /\
+  cp_add (final cmds) [12; 13; 14; 15] 4 = (final cmds, Ok 12).
+Proof.
+  split; [apply wf_cmds_by_length; reflexivity|]. split; [unfold guard; vm_compute; discriminate|].
+  split; [split; vm_compute; reflexivity|vm_compute; reflexivity].
+Qed.
